@@ -25,6 +25,52 @@ def scope_of(d, r):
                 ncell=d['shape'][0] * d['shape'][1], year=yrs[0], start_hour=hour, shape='x'.join(str(x) for x in d['shape']))
 
 
+def build_hand(r):
+    """a CAMx-convention file built in memory from the recipe: no ETFLAG, no boundary
+    definition records, every data array a non-contiguous view"""
+    P = core.load_lib()
+    from PseudoNetCDF.core._variables import PseudoNetCDFVariable
+    fmt = r['fmt']
+    n = len(r['steps'])
+    f = P.PseudoNetCDFFile()
+    f.createDimension('TSTEP', n)
+    f.createDimension('LAY', r['nz'])
+    f.createDimension('ROW', r['ny'])
+    f.createDimension('COL', r['nx'])
+    f.createDimension('DATE-TIME', 2)
+    names = cl.varnames(r)
+    f.createDimension('VAR', len(names))
+    tb, te = camx_u.expected_tflag(r)
+    tf = f.createVariable('TFLAG', 'i', ('TSTEP', 'VAR', 'DATE-TIME'))
+    for t in range(n):
+        tf[t, :, 0] = tb[t][0]
+        tf[t, :, 1] = tb[t][1]
+    for nm in names:
+        exp = cl.expected_var(r, nm)
+        if fmt == 'lateral_boundary':
+            dims = ('TSTEP', 'ROW' if nm.split('_')[0] in ('WEST', 'EAST') else 'COL', 'LAY')
+            arr = np.ascontiguousarray(exp.swapaxes(1, 2)).swapaxes(1, 2)   # (t, cell, lay) view, not C-ordered
+        elif exp.ndim == 3:
+            dims = ('TSTEP', 'ROW', 'COL')
+            arr = np.asfortranarray(exp)
+        else:
+            dims = ('TSTEP', 'LAY', 'ROW', 'COL')
+            arr = np.asfortranarray(exp)
+        f.variables[nm] = PseudoNetCDFVariable(f, nm, 'f', dims, values=arr, units='ppm')
+    if fmt in ('uamiv', 'lateral_boundary'):
+        g = r['grid']
+        f.NAME, f.NOTE, f.ITZON = r['name'].ljust(10), r['note'].ljust(60), r['itzon']
+        f.PLON, f.PLAT, f.IUTM, f.CPROJ = g['plon'], g['plat'], g['iutm'], g['iproj']
+        f.TLAT1, f.TLAT2, f.ISTAG = g['tlat1'], g['tlat2'], g['istag']
+        f.XORIG, f.YORIG, f.XCELL, f.YCELL = g['xorg'], g['yorg'], g['delx'], g['dely']
+    if fmt == 'wind':
+        f.LSTAGGER = float('nan') if r.get('lstagger', 0) is None else np.array(r.get('lstagger', 0), dtype='>i')[()]
+    f.SDATE, f.STIME, f.TSTEP = tb[0][0], tb[0][1], 10000
+    setattr(f, 'VAR-LIST', ''.join(k.ljust(16) for k in names))
+    f.NVARS = len(names)
+    return f
+
+
 class Prop(core.Prop):
     ID = 'C09'
     ENGINE = 'A'
@@ -72,45 +118,9 @@ class Prop(core.Prop):
     def hand_built(self, d, r, raw, scope):
         """library writer fed with a file built in memory (no ETFLAG, no boundary
         definition records, non-contiguous arrays) -> reference decoder"""
-        P = core.load_lib()
         fmt = r['fmt']
         vs = []
-        n = len(r['steps'])
-        f = P.PseudoNetCDFFile()
-        f.createDimension('TSTEP', n)
-        f.createDimension('LAY', r['nz'])
-        f.createDimension('ROW', r['ny'])
-        f.createDimension('COL', r['nx'])
-        f.createDimension('DATE-TIME', 2)
-        names = cl.varnames(r)
-        f.createDimension('VAR', len(names))
-        tb, te = camx_u.expected_tflag(r)
-        tf = f.createVariable('TFLAG', 'i', ('TSTEP', 'VAR', 'DATE-TIME'))
-        for t in range(n):
-            tf[t, :, 0] = tb[t][0]
-            tf[t, :, 1] = tb[t][1]
-        for nm in names:
-            exp = cl.expected_var(r, nm)
-            if fmt == 'uamiv':
-                v = f.createVariable(nm, 'f', ('TSTEP', 'LAY', 'ROW', 'COL'))
-                # a non-contiguous view holding the same values
-                v[...] = exp
-                f.variables[nm] = v
-                arr = np.asfortranarray(exp)
-            else:
-                dims = ('TSTEP', 'ROW' if nm.split('_')[0] in ('WEST', 'EAST') else 'COL', 'LAY')
-                v = f.createVariable(nm, 'f', dims)
-                arr = np.ascontiguousarray(exp.swapaxes(1, 2)).swapaxes(1, 2)   # (t, cell, lay) view, not C-ordered
-            from PseudoNetCDF.core._variables import PseudoNetCDFVariable
-            f.variables[nm] = PseudoNetCDFVariable(f, nm, 'f', v.dimensions, values=arr, units='ppm')
-        g = r['grid']
-        f.NAME, f.NOTE, f.ITZON = r['name'].ljust(10), r['note'].ljust(60), r['itzon']
-        f.PLON, f.PLAT, f.IUTM, f.CPROJ = g['plon'], g['plat'], g['iutm'], g['iproj']
-        f.TLAT1, f.TLAT2, f.ISTAG = g['tlat1'], g['tlat2'], g['istag']
-        f.XORIG, f.YORIG, f.XCELL, f.YCELL = g['xorg'], g['yorg'], g['delx'], g['dely']
-        f.SDATE, f.STIME, f.TSTEP = tb[0][0], tb[0][1], 10000
-        setattr(f, 'VAR-LIST', ''.join(k.ljust(16) for k in names))
-        f.NVARS = len(names)
+        f = build_hand(r)
         q = self.path('hand')
         if os.path.exists(q):
             os.unlink(q)
